@@ -188,6 +188,19 @@ def make_cells(gi, tier):
     cells.append(Cell("%s/Adhom" % nm, st.fixed_dictionaries({"X": elem, "Y": elem}), check_adhom,
                       lambda c: nt_g(c["X"]) and nt_g(c["Y"]), quick=150, thorough=3000,
                       build=lambda: (gi.fn("Ad").build(), gi.fn("prod").build(), gi.fn("inv").build())))
+    # ---- vector-space sugar of algebra elements (used by every law above through -x, s*x, x+y)
+    def check_sugar(case):
+        x, y, sc = enca(case["x"]), enca(case["y"]), case["s"]
+        add, sub, neg, lm, rm, vee_, wedge_ = [cy.vec(o) for o in gi.fn("alg_sugar")(x, y, sc)]
+        m = 1 + float(np.max(np.abs(x))) + float(np.max(np.abs(y)))
+        for nm_, got, want in (("x + y", add, x + y), ("x - y", sub, x - y), ("-x", neg, -x), ("s * x", lm, sc * x), ("x * s", rm, sc * x),
+                               ("vee(x)", vee_, x), ("wedge(param)", wedge_, x)):
+            L.close(got, want, "%s: %s on algebra elements" % (nm, nm_), atol=1e-12 * m * (1 + abs(sc)), rtol=0)
+        L.close(L.hat(gi, sub), L.hat(gi, x) - L.hat(gi, y), "%s: hat(x - y) vs hat(x) - hat(y)" % nm, atol=1e-12 * m, rtol=0)
+
+    cells.append(Cell("%s/algebra_sugar" % nm, st.fixed_dictionaries({"x": alg, "y": alg, "s": gens.fl(-3.0, 3.0)}), check_sugar,
+                      lambda c: nt_a(c["x"]) and nt_a(c["y"]), quick=40, thorough=500, build=lambda: gi.fn("alg_sugar").build()))
+
     # ---- element objects reused across several operations (in-place mutation / aliasing shows here)
     def mk_reuse():
         x, y, z = gi._x("x"), gi._x("y"), gi._x("z")
